@@ -301,6 +301,17 @@ def arrangements(r, f, X, dim, scale, vec, kind, cls, want):
         g = np.array(mesh.point_data["mfield"])
         if np.max(np.abs(g - f)) > tol:
             return ("mesh type (meshio points)", float(np.max(np.abs(g - f))))
+        if dim == 2:
+            # a 3-D mesh whose (z, x) resp. (y, x) coordinates carry the 2-D positions, selected by a direction string
+            for dstr, cols in (("zx", (2, 0)), ("yx", (1, 0)), ("xz", (0, 2))):
+                p3 = np.full((n, 3), 0.123)
+                p3[:, cols[0]] = X[0]
+                p3[:, cols[1]] = X[1]
+                m3 = meshio.Mesh(p3, [("vertex", np.arange(n).reshape(-1, 1))])
+                r.srf.mesh(m3, points="points", direction=dstr, name="mfield", seed=np.nan)
+                g = np.array(m3.point_data["mfield"])
+                if np.max(np.abs(g - f)) > tol:
+                    return ("mesh direction string '%s'" % dstr, float(np.max(np.abs(g - f))))
     return None
 
 
@@ -334,13 +345,28 @@ def _work(job):
             seen.add(sig(p))
         ps = (first + rest)[:cap]
     behs = [("state-graph edge cover", [nodes[i] for i in p]) for p in ps]
+    # every operation instance applied once to the richest initial state, followed by a call that keeps the seed
+    succ = {}
+    for a, b, _lab in edges:
+        succ.setdefault(a, []).append(b)
+
+    def richness(i):
+        st = nodes[i]
+        return (st["modeNo"], st["pm"]["anis"], st["pm"]["ang"], st["seed"], st["period"])
+    init0 = max(inits, key=richness)
+    for n1 in sorted(set(succ.get(init0, ()))):
+        if nodes[n1]["op"]["name"] == "Call":
+            continue
+        calls = [n2 for n2 in succ.get(n1, ()) if nodes[n2]["op"]["name"] == "Call" and nodes[n2]["op"]["seed"] == KEEP]
+        if calls:
+            behs.append(("one operation, then call", [nodes[init0], nodes[n1], nodes[calls[0]]]))
     for beh in tlc.read_sim_traces(os.path.join(scdir, "sim"), "S_%s_%d" % (speckind, sdim)):
         behs.append(("simulate", [s for _a, s in beh]))
     out = {"traces": 0, "calls": 0, "nontrivial": set(), "samples": [], "tag": tag}
     for origin, sts in behs:
         if not any(s["op"]["name"] == "Call" for s in sts[1:]):
             continue
-        c = replay(col, kind, cls, dim, sts, origin)
+        c = replay(col, kind, cls, dim, sts, origin, locality=(origin != "one operation, then call"))
         out["traces"] += 1
         out["calls"] += c
         out["nontrivial"].add(hash((tag, tlaval.freeze([s["op"] for s in sts]))))
